@@ -384,55 +384,89 @@ def _base_file(name):
     return os.path.join(core.VERIF, "models", "catalogue", name + ".json")
 
 
+BATCH = 16000     # events per validation round: bounds memory of the driver and of one TLC shard
+
+
+class _Stream:
+    """replayed cases are validated and judged in rounds of BATCH events, then dropped"""
+
+    def __init__(self, ctx):
+        self.ctx, self.results, self.payloads = ctx, [], {}
+        self.t_validate = 0.0
+
+    def add(self, cid, evs, payload):
+        self.results.append((cid, evs))
+        self.payloads[cid] = payload
+
+    def flush(self, force=False):
+        while len(self.results) >= BATCH or (force and self.results):
+            batch, self.results = self.results[:BATCH], self.results[BATCH:]
+            t0 = time.time()
+            verdicts = self.ctx.validate("Trace_CellGeom", batch, timeout=6 * 3600, heap="1g")
+            for cid, vjs in verdicts.items():
+                for vj in vjs:
+                    for d in vj.get("drift", []):
+                        self.ctx.note(f"model_drift {d} (first seen in case {cid})")
+            self.ctx.judge(verdicts, {cid: self.payloads.pop(cid) for cid, _ in batch})
+            self.t_validate += time.time() - t0
+
+
 def run(ctx):
-    payloads = {}
-    results = []
+    st = _Stream(ctx)
     case = 0
-    phase = {}
-    t0 = time.time()
+    phase = {"mc_polygons": 0.0, "replay_grid_polygons": 0.0}
     # ---- all grid polygons (TLC) -------------------------------------------------------------
     cfgs = ctx.pick(["MC_CellGeom.cfg"], ["MC_CellGeom.cfg", "MC_CellGeom_thorough.cfg"])
-    chunk, chunks, seen = [], [], set()
+    seen = set()
     n_grid = 0
     for cfg in cfgs:
+        t0 = time.time()
         res = ctx.mc("MC_CellGeom", cfg, env={"BASE_FILE": _base_file("hexflower")}, timeout=6 * 3600,
                      heap=ctx.pick("2g", "8g"))
-        for inst in res.printed:
-            key = json.dumps(inst["P"])
-            if key in seen:
-                continue
-            seen.add(key)
-            case += 1
-            n_grid += 1
-            payloads[case] = {"kind": "poly", "src": "grid:" + cfg, "P": inst["P"]}
-            ctx.add_case(payloads[case], nontrivial=_nonconvex(inst["P"]))
-            chunk.append((case, inst["P"], "grid"))
-            if len(chunk) >= 100:
-                chunks.append((ctx.seed, chunk))
-                chunk = []
+        polys = [inst["P"] for inst in res.printed]
         del res
-    if chunk:
-        chunks.append((ctx.seed, chunk))
-    phase["mc_polygons"] = round(time.time() - t0, 1)
-    t0 = time.time()
-    for part in core.parallel_map(_poly_jobs, chunks, chunksize=1):
-        results += part
-    phase["replay_grid_polygons"] = round(time.time() - t0, 1)
+        phase["mc_polygons"] += time.time() - t0
+        for b in range(0, len(polys), BATCH):
+            t0 = time.time()
+            chunk, chunks, pl = [], [], {}
+            for P in polys[b:b + BATCH]:
+                key = json.dumps(P)
+                if key in seen:
+                    continue
+                seen.add(key)
+                case += 1
+                n_grid += 1
+                pl[case] = {"kind": "poly", "src": "grid:" + cfg, "P": P}
+                ctx.add_case(pl[case], nontrivial=_nonconvex(P))
+                chunk.append((case, P, "grid"))
+                if len(chunk) >= 100:
+                    chunks.append((ctx.seed, chunk))
+                    chunk = []
+            if chunk:
+                chunks.append((ctx.seed, chunk))
+            for part in core.parallel_map(_poly_jobs, chunks, chunksize=1):
+                for cid, evs in part:
+                    st.add(cid, evs, pl[cid])
+            phase["replay_grid_polygons"] += time.time() - t0
+            st.flush()
+        del polys
     t0 = time.time()
     # ---- all sub-tissues of the small catalogue tissues (TLC) -------------------------------
     bases = ctx.pick(["hexflower", "squares33", "brick33"],
                      ["hexflower", "squares33", "brick33", "hex33", "irregular"])
     tcfg = ctx.pick("MC_CellGeom_tissue.cfg", "MC_CellGeom_tissue_thorough.cfg")
-    tjobs = []
+    tjobs, pl = [], {}
     for b in bases:
         res = ctx.mc("MC_CellGeom", tcfg, env={"BASE_FILE": _base_file(b)}, timeout=3600, heap="1g")
         for inst in res.printed:
             case += 1
             tjobs.append((case, b, inst, ctx.seed))
-            payloads[case] = {"kind": "catalogue", "base": b, "sub": inst["sub"], "k": inst["k"], "cells": inst["cells"]}
-            ctx.add_case(payloads[case], nontrivial=len(inst["cells"]) > 1)
+            pl[case] = {"kind": "catalogue", "base": b, "sub": inst["sub"], "k": inst["k"], "cells": inst["cells"]}
+            ctx.add_case(pl[case], nontrivial=len(inst["cells"]) > 1)
     n_cat = len(tjobs)
-    results += core.parallel_map(_catalogue_job, tjobs, chunksize=16)
+    for cid, evs in core.parallel_map(_catalogue_job, tjobs, chunksize=16):
+        st.add(cid, evs, pl[cid])
+    st.flush()
     # ---- random polygons up to 80 vertices, degenerate cycles ------------------------------
     nrand = ctx.pick(400, 6000)
     rjobs = []
@@ -440,40 +474,32 @@ def run(ctx):
         case += 1
         rjobs.append((case, ctx.seed, ctx.seed * 104729 + i))
     for cid, evs, payload in core.parallel_map(_random_poly_job, rjobs, chunksize=4):
-        payloads[cid] = payload
         ctx.add_case(payload, nontrivial=_nonconvex(payload["P"]))
-        results.append((cid, evs))
-    dchunk = []
+        st.add(cid, evs, payload)
+    dchunk, pl = [], {}
     for src, P in degenerate_cycles():
         case += 1
-        payloads[case] = {"kind": "poly", "src": src, "P": [list(p) for p in P]}
-        ctx.add_case(payloads[case], nontrivial=False)
+        pl[case] = {"kind": "poly", "src": src, "P": [list(p) for p in P]}
+        ctx.add_case(pl[case], nontrivial=False)
         dchunk.append((case, [list(p) for p in P], src))
-    results += core.parallel_map(_poly_jobs, [(ctx.seed, dchunk)])[0]
+    for cid, evs in core.parallel_map(_poly_jobs, [(ctx.seed, dchunk)])[0]:
+        st.add(cid, evs, pl[cid])
     # ---- random Voronoi tissues (integer-rounded coordinates, random cell subsets) ----------
     nvor = ctx.pick(24, 400)
-    vjobs = []
+    vjobs, pl = [], {}
     for i in range(nvor):
         case += 1
         s = ctx.seed * 7919 + i
         vjobs.append((case, s))
-        payloads[case] = {"kind": "voronoi", "seed": s}
-        ctx.add_case(payloads[case])
-    results += core.parallel_map(_voronoi_job, vjobs, chunksize=2)
-    phase["tissues_and_random"] = round(time.time() - t0, 1)
-    t0 = time.time()
-    # ---- judged by TLC ----------------------------------------------------------------------
-    verdicts = {}
-    BATCH = 16000     # bounds the size of one ndjson shard (TLC reads a shard into memory at once)
-    for b in range(0, len(results), BATCH):
-        verdicts.update(ctx.validate("Trace_CellGeom", results[b:b + BATCH], timeout=6 * 3600, heap="1g"))
-    for cid, vjs in verdicts.items():
-        for vj in vjs:
-            for d in vj.get("drift", []):
-                ctx.note(f"model_drift {d} (first seen in case {cid})")
-    ctx.judge(verdicts, payloads)
-    phase["trace_validation"] = round(time.time() - t0, 1)
-    ctx.extra["phase_wall_s"] = phase
+        pl[case] = {"kind": "voronoi", "seed": s}
+        ctx.add_case(pl[case])
+    for cid, evs in core.parallel_map(_voronoi_job, vjobs, chunksize=2):
+        st.add(cid, evs, pl[cid])
+    # ---- everything left is judged by TLC ---------------------------------------------------
+    st.flush(force=True)
+    phase["tissues_and_random_incl_validation"] = time.time() - t0
+    phase["trace_validation_total"] = st.t_validate
+    ctx.extra["phase_wall_s"] = {k: round(v, 1) for k, v in phase.items()}
     ctx.rule = ("TLC enumerates every simple polygon with 3..NMAX vertices on a GRIDxGRID integer grid (stored from its "
                 "least vertex, both orientations; all shifts/reversal/translations/scalings inside the invariants) and "
                 "every non-empty cell subset of each catalogue tissue x interior points per edge; each emitted instance "
